@@ -17,7 +17,8 @@ EXTENDS LazyHeader, TLC, Json, IOUtils, SequencesExt
 CONSTANTS Readers, Calls,       \* reader processes, calls per reader
           Sweeps,               \* idle sweeps of the pool goroutine
           Closers,              \* processes calling Close once (0 or 1 element)
-          LoadMayFail           \* NewBinaryReader may fail (readerErr is then sticky)
+          LoadMayFail,          \* NewBinaryReader may fail (readerErr is then sticky)
+          HoldAnswers           \* model the caller reading an answer that aliases the header after the call
 
 Sweeper == "sweeper"
 Procs == Readers \cup Closers \cup {Sweeper}
@@ -85,8 +86,13 @@ Reader(p) ==
        /\ Goto(p, "work") /\ UNCHANGED <<mtx, hdr, left, results>>
     \/ /\ pc[p] = "work"                                    \* BinaryReader.X() reads the mmap
        /\ Goto(p, "endok") /\ UNCHANGED <<mtx, hdr, left, using, results>>
-    \/ /\ RUnlock(p, "endok", "idle") /\ Finish(p, "ok")
+    \/ /\ ~HoldAnswers /\ RUnlock(p, "endok", "idle") /\ Finish(p, "ok")
        /\ using' = [using EXCEPT ![p] = None] /\ UNCHANGED hdr
+    \/ /\ HoldAnswers /\ RUnlock(p, "endok", "hold")       \* the call returned; its answer still aliases
+       /\ UNCHANGED <<hdr, left, using, results>>          \* the header's mmap (LabelValues, LookupSymbol)
+    \/ /\ pc[p] = "hold"                                    \* the caller reads the answer
+       /\ Goto(p, "idle") /\ Finish(p, "ok")
+       /\ using' = [using EXCEPT ![p] = None] /\ UNCHANGED <<mtx, hdr>>
     \/ /\ RUnlock(p, "fail", "idle") /\ Finish(p, "error") /\ UNCHANGED <<hdr, using>>
 
 (* ---- unloadIfIdleSince(ts): sweeper (ts > 0: only when idle) and Close (ts = 0) ---- *)
@@ -116,6 +122,12 @@ UseOnlyLoadedOpen == \A p \in Readers : pc[p] = "use" => UseOK(loaded, loaded, c
 (* never answers from a closed header *)
 NeverUseClosed == \A p \in Readers : pc[p] \in {"work", "endok"} => using[p] # None /\ using[p] \notin closed
 ClosedOnlyUnused == \A g \in closed : CloseOK(g, InUse)
+(* KNOWN FINDING (key aliased-answer-after-unload): LabelValues / LookupSymbol answers alias the    *)
+(* mmapped header and are read by the caller after the read lock is released; this invariant is    *)
+(* FALSE in the model with HoldAnswers = TRUE (LazyHeaderMC_alias.cfg, not part of the check) and  *)
+(* is the class the harness tags; the configurations of the check use HoldAnswers = FALSE, i.e.    *)
+(* they prove the protocol for everything but the lifetime of aliasing answers.                    *)
+HeldAnswersReadable == \A p \in Readers : pc[p] = "hold" => using[p] \notin closed
 (* every call returns the loaded answer or a clean error *)
 CleanResults == \A p \in Readers : \A j \in 1..Len(results[p]) : results[p][j] \in {"ok", "error"}
 MutexOK == rc >= 0 /\ (w # "" => rc = 0)
